@@ -136,6 +136,7 @@ type Template struct {
 }
 
 type File struct {
+	CRLF      bool // the text is written with CRLF line ends (the caller converts the printed text)
 	Package  string // "" = omitted
 	Imports  []string // import lines as written (e.g. `import "fmt"`), or group
 	ImportGroup bool
@@ -489,7 +490,12 @@ func (p *Printer) node(n *Node, indent int) {
 		}
 	case KRender:
 		p.feat("render")
-		p.w(tabs + "= @render ")
+		if n.Unescaped {
+			p.feat("render.unescaped-spelling")
+			p.w(tabs + "!= @render ")
+		} else {
+			p.w(tabs + "= @render ")
+		}
 		p.frag("render", n.Callee)
 		p.w("\n")
 		if len(n.Kids) > 0 {
@@ -500,7 +506,12 @@ func (p *Printer) node(n *Node, indent int) {
 		}
 	case KChildren:
 		p.feat("children")
-		p.w(tabs + "= @children\n")
+		if n.Unescaped {
+			p.feat("children.unescaped-spelling")
+			p.w(tabs + "!= @children\n")
+		} else {
+			p.w(tabs + "= @children\n")
+		}
 	case KBlank:
 		p.feat("blank-indented-line")
 		p.w(tabs + "\n")
